@@ -16,7 +16,8 @@ Next == \/ g = 0 /\ g' \in 1..G /\ k' = 0
         \/ g > 0 /\ k = 0 /\ k' \in {c \in 1..NCh : c % G = g - 1} /\ g' = g
 Spec == Init /\ [][Next]_<<g, k>>
 
-Verdict(r) == IF r.kind = "fold" THEN FoldVerdict(r.ex, r.cr = 1, r.out, r.relayed)
+Verdict(r) == IF r.kind = "lrun" THEN LRunVerdict(r.lcmds, [i \in 1..Len(r.lexp) |-> [ex |-> r.lexp[i][1], cr |-> r.lexp[i][2] = 1]], r.lframes)
+              ELSE IF r.kind = "fold" THEN FoldVerdict(r.ex, r.cr = 1, r.out, r.relayed)
               ELSE SpawnVerdict(r.cmds, r.limit, r.reports, r.opens, [i \in 1..Len(r.ran) |-> r.ran[i] = 1])
 CheckChunk(c) ==
   LET lo == (c - 1) * Chunk + 1
